@@ -649,4 +649,318 @@ theorem genToast_eq_trav (depth : Nat) (acc : Pos → Bool) :
   have hr : yldRoot acc Pos.root = true := by simp [yldRoot, Pos.root]
   simp only [trav, hr, if_true, List.append_assoc]
 
+/-! ### What is in a traversal -/
+
+/-- every position on the way from `p` down to `q` is accepted -/
+def PathOk (yld : Pos → Bool) (p q : Pos) : Prop := ∀ k, p.n ≤ k → k ≤ q.n → yld (q.anc k) = true
+
+theorem under_n_eq (q p : Pos) (h : Under q p) (hn : q.n = p.n) : q = p := by
+  have := h.2 p.n (Nat.le_refl _)
+  rw [← hn, anc_self] at this
+  rw [this, hn, anc_self]
+
+/-- a proper descendant of `p` lies under exactly one child of `p` -/
+theorem under_child_of (q p : Pos) (h : Under q p) (hn : p.n < q.n) :
+    ∃ i, i < 4 ∧ Under q (p.child i) ∧ q.anc (p.n + 1) = p.child i := by
+  -- the ancestor of q one level below p
+  have hpar : (q.anc (p.n + 1)).parent = p := by
+    have e : (q.anc (p.n + 1)).parent = q.anc p.n := by
+      simp only [anc, parent, Pos.mk.injEq, Nat.add_sub_cancel, true_and]
+      have e1 : q.n - p.n = (q.n - (p.n + 1)) + 1 := by omega
+      rw [e1, Nat.pow_succ]
+      exact ⟨by rw [Nat.div_div_eq_div_mul], by rw [Nat.div_div_eq_div_mul]⟩
+    rw [e, h.2 p.n (Nat.le_refl _), anc_self]
+  have hc := C13.child_parent (q.anc (p.n + 1)) (by simp [anc])
+  rw [hpar] at hc
+  refine ⟨(q.anc (p.n + 1)).slot, by simp only [slot]; omega, ?_, hc.symm⟩
+  rw [hc]
+  refine ⟨by simp [anc]; omega, ?_⟩
+  intro k hk
+  simp only [anc] at hk ⊢
+  simp only [Pos.mk.injEq, true_and]
+  have e1 : q.n - k = (q.n - (p.n + 1)) + (p.n + 1 - k) := by omega
+  rw [e1, Nat.pow_add]
+  exact ⟨by rw [Nat.div_div_eq_div_mul], by rw [Nat.div_div_eq_div_mul]⟩
+
+theorem anc_anc_under (q c : Pos) (h : Under q c) (k : Nat) (hk : k ≤ c.n) : q.anc k = c.anc k := h.2 k hk
+
+theorem mem_trav (yld : Pos → Bool) : ∀ (f : Nat) (p q : Pos),
+    q ∈ trav yld f p ↔ (Under q p ∧ q.n < p.n + f ∧ PathOk yld p q) := by
+  intro f
+  induction f with
+  | zero =>
+    intro p q
+    simp only [trav, List.not_mem_nil, false_iff]
+    rintro ⟨h, hn, _⟩
+    have := h.1; omega
+  | succ f ih =>
+    intro p q
+    constructor
+    · intro hq
+      have hu := mem_trav_under yld (f + 1) p q hq
+      simp only [trav] at hq
+      split at hq
+      · rename_i hy
+        simp only [List.mem_append, List.mem_singleton] at hq
+        have key : ∀ i, i < 4 → q ∈ trav yld f (p.child i) → (Under q p ∧ q.n < p.n + (f + 1) ∧ PathOk yld p q) := by
+          intro i hi hm
+          obtain ⟨a, b, c⟩ := (ih (p.child i) q).1 hm
+          refine ⟨hu, by simp [child] at b; omega, ?_⟩
+          intro k hk1 hk2
+          by_cases e : k = p.n
+          · subst e; rw [hu.2 p.n (Nat.le_refl _), anc_self]; exact hy
+          · exact c k (by simp [child]; omega) hk2
+        rcases hq with (((h | h) | h) | h) | h
+        · exact key 0 (by omega) h
+        · exact key 1 (by omega) h
+        · exact key 2 (by omega) h
+        · exact key 3 (by omega) h
+        · subst h
+          refine ⟨hu, by omega, ?_⟩
+          intro k hk1 hk2
+          have : k = q.n := by omega
+          subst this; rw [anc_self]; exact hy
+      · cases hq
+    · rintro ⟨hu, hn, hp⟩
+      have hy : yld p = true := by
+        have := hp p.n (Nat.le_refl _) hu.1
+        rw [hu.2 p.n (Nat.le_refl _), anc_self] at this; exact this
+      simp only [trav, hy, if_true, List.mem_append, List.mem_singleton]
+      by_cases e : q.n = p.n
+      · right; exact under_n_eq q p hu e
+      · have hlt : p.n < q.n := by have := hu.1; omega
+        obtain ⟨i, hi, hci, _⟩ := under_child_of q p hu hlt
+        have hm : q ∈ trav yld f (p.child i) := by
+          rw [ih]
+          refine ⟨hci, by simp [child]; omega, ?_⟩
+          intro k hk1 hk2
+          exact hp k (by simp [child] at hk1; omega) hk2
+        have : i = 0 ∨ i = 1 ∨ i = 2 ∨ i = 3 := by omega
+        rcases this with rfl | rfl | rfl | rfl
+        · left; left; left; left; exact hm
+        · left; left; left; right; exact hm
+        · left; left; right; exact hm
+        · left; right; exact hm
+
+theorem trav_sublist (yld : Pos → Bool) : ∀ (f : Nat) (p : Pos), (trav yld f p).Sublist (trav (fun _ => true) f p) := by
+  intro f
+  induction f with
+  | zero => intro p; exact List.Sublist.refl _
+  | succ f ih =>
+    intro p
+    simp only [trav, if_true]
+    split
+    · exact ((((ih _).append (ih _)).append (ih _)).append (ih _)).append (List.Sublist.refl _)
+    · exact List.nil_sublist _
+
+theorem trav_nodup (yld : Pos → Bool) (f : Nat) (p : Pos) : (trav yld f p).Nodup := by
+  have h := C13.nodup_postorder f p
+  rw [postorder_eq_trav] at h
+  exact (trav_sublist yld f p).nodup h
+
+/-! ### Fuel aligned with the depth: what is yielded, as a function of the position alone -/
+
+/-- the entry yielded for position `q` when the traversal is cut at `depth` -/
+def entry (yld : Pos → Bool) (depth : Nat) (d : α) (F : Pos → Bool → (Nat → α) → α) (q : Pos) : Pos × Bool × (Nat → α) :=
+  (q, decide (q.n = depth), cdata yld depth d F (depth - q.n) q)
+
+theorem travI_eq_map (yld : Pos → Bool) (depth : Nat) (d : α) (F : Pos → Bool → (Nat → α) → α) :
+    ∀ (f : Nat) (p : Pos), f + p.n = depth + 1 →
+      travI yld depth d F f p = (trav yld f p).map (entry yld depth d F) := by
+  intro f
+  induction f with
+  | zero => intro p _; rfl
+  | succ f ih =>
+    intro p hal
+    have hc : ∀ i, travI yld depth d F f (p.child i) = (trav yld f (p.child i)).map (entry yld depth d F) :=
+      fun i => ih (p.child i) (by simp [child]; omega)
+    simp only [travI, trav]
+    split
+    · simp only [List.map_append, List.map_cons, List.map_nil, hc]
+      have : f = depth - p.n := by omega
+      simp only [entry, this]
+    · rfl
+
+/-- the value of the fold at a yielded position (fuel aligned with the depth) -/
+def valAt (yld : Pos → Bool) (depth : Nat) (d : α) (F : Pos → Bool → (Nat → α) → α) (q : Pos) : α :=
+  val yld depth d F (depth + 1 - q.n) q
+
+theorem F_entry (yld : Pos → Bool) (depth : Nat) (d : α) (F : Pos → Bool → (Nat → α) → α) (q : Pos) (hq : q.n ≤ depth) :
+    F (entry yld depth d F q).1 (entry yld depth d F q).2.1 (entry yld depth d F q).2.2 = valAt yld depth d F q := by
+  unfold valAt entry
+  have : depth + 1 - q.n = (depth - q.n) + 1 := by omega
+  rw [this, val_succ]
+
+theorem mem_trav_level (yld : Pos → Bool) (f : Nat) (p q : Pos) (depth : Nat) (hal : f + p.n = depth + 1)
+    (h : q ∈ trav yld f p) : q.n ≤ depth := by
+  have := ((mem_trav yld f p q).1 h).2.1; omega
+
+/-! ### The walk's liveness flag: "some leaf at the target depth lies below" -/
+
+theorem valW_iff (yld : Pos → Bool) (depth : Nat) : ∀ (f : Nat) (p : Pos), f + p.n = depth + 1 → live yld f p = true →
+    (val yld depth false fWalk f p = true ↔ ∃ q ∈ trav yld f p, q.n = depth) := by
+  intro f
+  induction f with
+  | zero => intro p _ hl; simp [live] at hl
+  | succ f ih =>
+    intro p hal hl
+    have hy : yld p = true := by simp [live] at hl; exact hl
+    rw [val_succ]
+    simp only [fWalk]
+    by_cases hd : p.n = depth
+    · simp only [hd, decide_true, if_true, true_iff]
+      exact ⟨p, by simp [trav, hy], hd⟩
+    · simp only [hd, decide_false, Bool.false_eq_true, if_false]
+      have hcd : ∀ i, i < 4 → (cdata yld depth false fWalk f p i = true ↔ ∃ q ∈ trav yld f (p.child i), q.n = depth) := by
+        intro i hi
+        unfold cdata
+        by_cases hli : live yld f (p.child i) = true
+        · rw [if_pos ⟨hi, hli⟩]
+          exact ih (p.child i) (by simp [child]; omega) hli
+        · have hli' : live yld f (p.child i) = false := by simpa using hli
+          rw [if_neg (fun h => hli h.2), trav_of_not_live yld f _ hli']
+          simp
+      simp only [Bool.or_eq_true]
+      rw [hcd 0 (by omega), hcd 1 (by omega), hcd 2 (by omega), hcd 3 (by omega)]
+      simp only [trav, hy, if_true, List.mem_append, List.mem_singleton]
+      constructor
+      · rintro (((⟨q, hq, hn⟩ | ⟨q, hq, hn⟩) | ⟨q, hq, hn⟩) | ⟨q, hq, hn⟩)
+        · exact ⟨q, Or.inl (Or.inl (Or.inl (Or.inl hq))), hn⟩
+        · exact ⟨q, Or.inl (Or.inl (Or.inl (Or.inr hq))), hn⟩
+        · exact ⟨q, Or.inl (Or.inl (Or.inr hq)), hn⟩
+        · exact ⟨q, Or.inl (Or.inr hq), hn⟩
+      · rintro ⟨q, hq, hn⟩
+        rcases hq with (((hq | hq) | hq) | hq) | hq
+        · exact Or.inl (Or.inl (Or.inl ⟨q, hq, hn⟩))
+        · exact Or.inl (Or.inl (Or.inr ⟨q, hq, hn⟩))
+        · exact Or.inl (Or.inr ⟨q, hq, hn⟩)
+        · exact Or.inr ⟨q, hq, hn⟩
+        · subst hq; exact absurd hn hd
+
+/-! ### The generic generator -/
+
+def shift (apex q : Pos) : Pos := ⟨q.n + apex.n, q.x + apex.x * 2 ^ q.n, q.y + apex.y * 2 ^ q.n⟩
+
+theorem shift_child (apex q : Pos) (k : Nat) : shift apex (q.child k) = (shift apex q).child k := by
+  simp only [shift, child, Pos.mk.injEq, Nat.pow_succ]
+  refine ⟨by omega, ?_, ?_⟩
+  · have : apex.x * (2 ^ q.n * 2) = 2 * (apex.x * 2 ^ q.n) := by ac_rfl
+    omega
+  · have : apex.y * (2 ^ q.n * 2) = 2 * (apex.y * 2 ^ q.n) := by ac_rfl
+    omega
+
+theorem map_shift_postorder (apex : Pos) : ∀ (f : Nat) (q : Pos),
+    (postorder f q).map (shift apex) = postorder f (shift apex q) := by
+  intro f
+  induction f with
+  | zero => intro q; rfl
+  | succ f ih => intro q; simp only [postorder, List.map_append, List.map_cons, List.map_nil, ih, shift_child]
+
+theorem genSub_form (depth : Nat) (apex : Pos) (hv : apex.valid) (hd : apex.n ≤ depth) :
+    ∃ rest, genSub depth apex = trav (fun _ => true) (depth + 1 - apex.n) apex ++ rest := by
+  unfold genSub
+  by_cases h0 : apex.n = 0
+  · rw [if_pos h0]
+    have : apex = Pos.root := by
+      obtain ⟨hx, hy⟩ := hv
+      cases apex with | mk n x y =>
+      simp only at h0 hx hy
+      subst h0
+      simp at hx hy
+      simp [Pos.root, hx, hy]
+    subst this
+    exact ⟨[], by simp [genPos, postorder_eq_trav, Pos.root]⟩
+  · rw [if_neg h0]
+    refine ⟨ancestorsUp apex.n apex, ?_⟩
+    congr 1
+    have e : (fun p : Pos => (⟨p.n + apex.n, p.x + apex.x * 2 ^ p.n, p.y + apex.y * 2 ^ p.n⟩ : Pos)) = shift apex := rfl
+    rw [e, genPos, map_shift_postorder, postorder_eq_trav]
+    have e2 : shift apex Pos.root = apex := by cases apex; simp [shift, Pos.root]
+    have e3 : depth - apex.n + 1 = depth + 1 - apex.n := by omega
+    rw [e2, e3]
+
+/-! ### Serial `visit_leaves` and serial `walk` -/
+
+/-- whether the tree below `q` (cut at `depth`) contains a position of level `depth` -/
+def hasLeaf (yld : Pos → Bool) (depth : Nat) (q : Pos) : Bool := valAt yld depth false fWalk q
+
+theorem hasLeaf_iff (yld : Pos → Bool) (depth : Nat) (q : Pos) (hq : q.n ≤ depth) (hy : yld q = true) :
+    hasLeaf yld depth q = true ↔ ∃ r ∈ trav yld (depth + 1 - q.n) q, r.n = depth := by
+  unfold hasLeaf valAt
+  exact valW_iff yld depth (depth + 1 - q.n) q (by omega) (by simp [live, hy]; omega)
+
+theorem leaves_of_run (yld : Pos → Bool) (depth : Nat) (apex : Pos) (hv : apex.valid) (hd : apex.n ≤ depth) (hy : yld apex = true)
+    (rest : List Pos) (L : List Pos) (hL : L = trav yld (depth + 1 - apex.n) apex ++ rest) :
+    (match runRed depth apex () (fun _ _ _ => ()) L (RState.init ()) with
+      | .error e => .error e
+      | .ok (ys, _) => .ok ((ys.filter (fun y => y.2.1)).map (·.1)))
+      = (.ok ((trav yld (depth + 1 - apex.n) apex).filter (fun q => q.n == depth)) : Except RErr (List Pos)) := by
+  obtain ⟨sf, hrun, _, _⟩ := run_tree yld depth apex () (fun _ _ _ => ()) (depth + 1 - apex.n) hv (by simp [live, hy]; omega) rest
+  rw [hL, hrun]
+  simp only
+  rw [travI_eq_map yld depth () _ _ apex (by omega)]
+  congr 1
+  rw [List.filter_map, List.map_map]
+  have : (Prod.fst ∘ entry yld depth () fun _ _ _ => ()) = id := by funext q; rfl
+  rw [this, List.map_id]
+  apply List.filter_congr
+  intro q _
+  simp only [entry, Function.comp]
+  by_cases hd' : q.n = depth <;> simp [hd']
+
+theorem walk_of_run (yld : Pos → Bool) (depth : Nat) (apex : Pos) (hv : apex.valid) (hd : apex.n ≤ depth) (hy : yld apex = true)
+    (rest : List Pos) (L : List Pos) (hL : L = trav yld (depth + 1 - apex.n) apex ++ rest) :
+    (match runRed depth apex false fWalk L (RState.init false) with
+      | .error e => .error e
+      | .ok (ys, _) => .ok ((ys.filter (fun y => !y.2.1 && fWalk y.1 y.2.1 y.2.2)).map (·.1)))
+      = (.ok ((trav yld (depth + 1 - apex.n) apex).filter (fun q => !(q.n == depth) && hasLeaf yld depth q)) : Except RErr (List Pos)) := by
+  obtain ⟨sf, hrun, _, _⟩ := run_tree yld depth apex false fWalk (depth + 1 - apex.n) hv (by simp [live, hy]; omega) rest
+  rw [hL, hrun]
+  simp only
+  rw [travI_eq_map yld depth false fWalk _ apex (by omega)]
+  congr 1
+  rw [List.filter_map, List.map_map]
+  have : (Prod.fst ∘ entry yld depth false fWalk) = id := by funext q; rfl
+  rw [this, List.map_id]
+  apply List.filter_congr
+  intro q hq
+  have hqd := mem_trav_level yld _ apex q depth (by omega) hq
+  simp only [Function.comp]
+  rw [F_entry yld depth false fWalk q hqd]
+  simp only [entry, hasLeaf]
+  by_cases hd' : q.n = depth <;> simp [hd']
+
+/-- **Serial `visit_leaves` on a generic (sub-)pyramid** visits exactly the positions of level `depth` below the apex,
+in generator order. -/
+theorem serialLeaves_generic (depth : Nat) (apex : Pos) (hv : apex.valid) (hd : apex.n ≤ depth) :
+    serialLeaves depth apex none = .ok ((trav (fun _ => true) (depth + 1 - apex.n) apex).filter (fun q => q.n == depth)) := by
+  obtain ⟨rest, hg⟩ := genSub_form depth apex hv hd
+  exact leaves_of_run (fun _ => true) depth apex hv hd rfl rest _ hg
+
+/-- **Serial `visit_leaves` on a (filtered) TOAST pyramid** visits exactly the accepted positions of level `depth`
+whose ancestors from level 1 on are all accepted. -/
+theorem serialLeaves_toast (depth : Nat) (acc : Pos → Bool) :
+    serialLeaves depth Pos.root (some acc) =
+      .ok ((trav (yldRoot acc) (depth + 1) Pos.root).filter (fun q => q.n == depth)) := by
+  have hg : generator depth Pos.root (some acc) = trav (yldRoot acc) (depth + 1 - Pos.root.n) Pos.root ++ [] := by
+    simp only [generator, Pos.root, decide_true, Bool.true_or, Bool.true_and, List.append_nil]
+    exact genToast_eq_trav depth acc
+  exact leaves_of_run (yldRoot acc) depth Pos.root (by simp [valid, Pos.root]) (Nat.zero_le _) (by simp [yldRoot, Pos.root]) [] _ hg
+
+/-- **Serial `walk`**: the callback runs for exactly the non-leaf positions that have a leaf of level `depth` below them,
+in post-order (children before parents). -/
+theorem serialWalk_generic (depth : Nat) (apex : Pos) (hv : apex.valid) (hd : apex.n ≤ depth) :
+    serialWalk depth apex none =
+      .ok ((trav (fun _ => true) (depth + 1 - apex.n) apex).filter (fun q => !(q.n == depth) && hasLeaf (fun _ => true) depth q)) := by
+  obtain ⟨rest, hg⟩ := genSub_form depth apex hv hd
+  exact walk_of_run (fun _ => true) depth apex hv hd rfl rest _ hg
+
+theorem serialWalk_toast (depth : Nat) (acc : Pos → Bool) :
+    serialWalk depth Pos.root (some acc) =
+      .ok ((trav (yldRoot acc) (depth + 1) Pos.root).filter (fun q => !(q.n == depth) && hasLeaf (yldRoot acc) depth q)) := by
+  have hg : generator depth Pos.root (some acc) = trav (yldRoot acc) (depth + 1 - Pos.root.n) Pos.root ++ [] := by
+    simp only [generator, Pos.root, decide_true, Bool.true_or, Bool.true_and, List.append_nil]
+    exact genToast_eq_trav depth acc
+  exact walk_of_run (yldRoot acc) depth Pos.root (by simp [valid, Pos.root]) (Nat.zero_le _) (by simp [yldRoot, Pos.root]) [] _ hg
+
 end Red
